@@ -616,6 +616,142 @@ func TestMarshalResultsKept(t *testing.T) {
 	})
 }
 
+// ---- the counts that introduce the blocks, after any history of the block ---------------------------------------
+//
+// "The parameter and data blocks are introduced by a word count and a byte count equal to the lengths actually
+// emitted." Data.Add and Data.SetData are documented to update ByteCount "to reflect the new length of the Bytes
+// field", Parameters.AddWord and AddWordsFromBytesStream to update WordCount "to reflect the new count" - whatever
+// the block went through before: built by the constructor or as a struct literal with its content assigned, a
+// decode that succeeded, a decode that failed half-way (a truncated block: the claimed count has been read, the
+// content has not). After a history that ends in one of these calls the block must encode with a count equal to
+// what follows it. (An update that adds to the old count instead of taking the length is right only as long as
+// count and length agreed before.)
+
+type histStep struct {
+	Op    string `json:"op"` // add, set, addword, addwords, decode, decode-truncated
+	Bytes vf.Hex `json:"bytes,omitempty"`
+	Word  uint16 `json:"word,omitempty"`
+}
+
+type histCase struct {
+	Block   string     `json:"block"` // Data, Parameters
+	Literal vf.Hex     `json:"struct_literal_content,omitempty"`
+	Steps   []histStep `json:"steps"`
+}
+
+func checkBlockHistory(c histCase) []vf.Finding {
+	last := c.Steps[len(c.Steps)-1].Op
+	switch c.Block {
+	case "Data":
+		d := datablock.NewData()
+		if c.Literal != nil {
+			d = &datablock.Data{Bytes: append([]byte{}, c.Literal...)}
+		}
+		for _, st := range c.Steps {
+			switch st.Op {
+			case "add":
+				d.Add(append([]byte{}, st.Bytes...))
+			case "set":
+				d.SetData(append([]byte{}, st.Bytes...))
+			case "decode":
+				safeBlock(d, append([]byte{byte(len(st.Bytes)), byte(len(st.Bytes) >> 8)}, st.Bytes...))
+			case "decode-truncated":
+				n := len(st.Bytes) + 1 + int(st.Word%7)
+				safeBlock(d, append([]byte{byte(n), byte(n >> 8)}, st.Bytes...))
+			}
+		}
+		if len(d.Bytes) > 65535 {
+			return nil
+		}
+		enc, err := d.Marshal()
+		if err != nil {
+			return []vf.Finding{vf.F("Data."+last, "block-refused-after-history", "%v", err)}
+		}
+		if len(enc) < 2 || int(enc[0])|int(enc[1])<<8 != len(enc)-2 {
+			return []vf.Finding{vf.F("Data."+last, "count-differs-from-emitted-length", "after %d calls ending in %s the block is emitted as count %d followed by %d bytes (ByteCount %d, %d bytes held)", len(c.Steps), last, int(enc[0])|int(enc[1])<<8, len(enc)-2, d.ByteCount, len(d.Bytes))}
+		}
+	case "Parameters":
+		p := parameters.NewParameters()
+		if c.Literal != nil {
+			p = &parameters.Parameters{}
+			for i := 0; i+1 < len(c.Literal); i += 2 {
+				p.Words = append(p.Words, uint16(c.Literal[i])<<8|uint16(c.Literal[i+1]))
+			}
+		}
+		for _, st := range c.Steps {
+			switch st.Op {
+			case "addword":
+				p.AddWord(st.Word)
+			case "addwords":
+				p.AddWordsFromBytesStream(append([]byte{}, st.Bytes[:len(st.Bytes)&^1]...))
+			case "decode":
+				b := st.Bytes[:len(st.Bytes)&^1]
+				safeBlock(p, append([]byte{byte(len(b) / 2)}, b...))
+			case "decode-truncated":
+				b := st.Bytes[:len(st.Bytes)&^1]
+				safeBlock(p, append([]byte{byte(len(b)/2 + 1 + int(st.Word%7))}, b...))
+			}
+		}
+		if len(p.Words) > 255 {
+			return nil
+		}
+		enc, err := func() (b []byte, err error) {
+			defer func() {
+				if r := recover(); r != nil {
+					err = fmt.Errorf("panic: %v", r)
+				}
+			}()
+			return p.Marshal()
+		}()
+		if err != nil {
+			return []vf.Finding{vf.F("Parameters."+last, "block-refused-after-history", "after %d calls ending in %s (WordCount %d, %d words held): %v", len(c.Steps), last, p.WordCount, len(p.Words), err)}
+		}
+		if len(enc) < 1 || 2*int(enc[0]) != len(enc)-1 {
+			return []vf.Finding{vf.F("Parameters."+last, "count-differs-from-emitted-length", "after %d calls ending in %s the block is emitted as count %d followed by %d bytes (WordCount %d, %d words held)", len(c.Steps), last, enc[0], len(enc)-1, p.WordCount, len(p.Words))}
+		}
+	default:
+		return []vf.Finding{vf.F("harness", "bad-case", "block %q", c.Block)}
+	}
+	return nil
+}
+
+func TestBlockHistories(t *testing.T) {
+	s := vf.Begin(t, P, "block-counts-after-histories")
+	vf.Rapid(s, vf.N(6000, 80000), func(t *rapid.T) histCase {
+		c := histCase{Block: rapid.SampledFrom([]string{"Data", "Parameters"}).Draw(t, "block")}
+		if rapid.IntRange(0, 3).Draw(t, "literal") == 0 {
+			c.Literal = rapid.SliceOfN(rapid.Byte(), 0, 12).Draw(t, "content")
+			if c.Literal == nil {
+				c.Literal = vf.Hex{}
+			}
+		}
+		mut, all := []string{"add", "set"}, []string{"add", "set", "decode", "decode-truncated", "decode-truncated"}
+		if c.Block == "Parameters" {
+			mut, all = []string{"addword", "addwords"}, []string{"addword", "addwords", "decode", "decode-truncated", "decode-truncated"}
+		}
+		n := rapid.IntRange(1, 5).Draw(t, "steps")
+		for i := 0; i < n; i++ {
+			ops := all
+			if i == n-1 {
+				ops = mut // the history ends in a call that is documented to set the count from the length
+			}
+			c.Steps = append(c.Steps, histStep{Op: rapid.SampledFrom(ops).Draw(t, "op"), Bytes: rapid.SliceOfN(rapid.Byte(), 0, 10).Draw(t, "bytes"), Word: rapid.Uint16().Draw(t, "word")})
+		}
+		return c
+	}, func(c histCase) []vf.Finding {
+		for _, st := range c.Steps {
+			if st.Op == "decode-truncated" {
+				s.Class("history-with-a-failed-decode")
+				break
+			}
+		}
+		if c.Literal != nil {
+			s.Class("struct-literal")
+		}
+		return checkBlockHistory(c)
+	}, func(c histCase) bool { return len(c.Steps) >= 2 || c.Literal != nil })
+}
+
 // ---- block sizes up to the 255-word / 65535-byte limits ---------------------------------------------------
 //
 // No command structure emits more than a few dozen words, so the limits are reached with raw wire
